@@ -1281,7 +1281,7 @@ pub fn verdict_findings(h: &Hist, sequential: bool) -> Vec<Finding> {
                 h.base_facts(Finding::new(
                     "CallDoesNotReturn",
                     format!(
-                        "a try operation executed more than {} scheduling points in a row while no other thread changed anything, and had not returned: {:?}",
+                        "a non-waiting call (try operation, poll, start_send) executed more than {} of its own scheduling points (in a row without a change by another thread, or - poll / start_send - in total) and had not returned: {:?}",
                         b,
                         a.map(|a| (CallKind::from_code(a.kind), a.handle, a.stream, a.op_idx))
                     ),
